@@ -245,8 +245,8 @@ func runPQ(rt *rapid.T, h *hist, q pqUnderTest, handles bool) (nontrivial bool) 
 			hd := hs[i]
 			_, wasLive := live[hd.id]
 			best, _ := minRank()
-			hd.remove()
 			h.op("remove[%d]() live=%v", hd.id, wasLive)
+			hd.remove()
 			if wasLive {
 				if len(live) > 1 && q.rank(live[hd.id]) != best {
 					h.label("remove_not_head")
@@ -302,6 +302,7 @@ func TestPriorityQueue(t *testing.T) {
 	rapid.Check(t, func(rt *rapid.T) {
 		desc := rapid.Bool().Draw(rt, "descending")
 		h := newHist(check, fmt.Sprintf("descending=%v", desc))
+		defer h.guard(rt)
 		h.done(runPQ(rt, h, newGenericPQ(desc), true))
 	})
 }
@@ -313,6 +314,7 @@ func TestTimedPriorityQueue(t *testing.T) {
 	rapid.Check(t, func(rt *rapid.T) {
 		mode := rapid.SampledFrom([]string{"ascending", "descending-explicit", "descending-default"}).Draw(rt, "mode")
 		h := newHist(check, mode)
+		defer h.guard(rt)
 		h.done(runPQ(rt, h, newTimedPQ(mode), false))
 	})
 }
